@@ -56,6 +56,10 @@ TraceStep ==
                                \* the ghost snapshot list (Props.tla) must equal the stored one on a faithful tree
                                \cup (IF \E v \in Vs(T) : AuxNext(aux, S, e, T).gsnaps[v] # T.vamm[v].snaps THEN {"gsnaps"} ELSE {})
                                \cup (IF \E v \in Vs(T) : AuxNext(aux, S, e, T).gcpf[v] # Cpf(T, v) THEN {"gcpf"} ELSE {})
+                               \cup (IF LET g == AuxNext(aux, S, e, T).gate
+                                         IN g.paused # T.eng.st.paused \/ (\E v \in Vs(T) : g.open[v] # T.vamm[v].st.open)
+                                            \/ g.reg # {T.ifund.vamms[i] : i \in 1..Len(T.ifund.vamms)}
+                                     THEN {"ggate"} ELSE {})
                                \cup (IF \E v \in Vs(T), t \in Traders :
                                          T.eng.pos[v][t].exists /\ T.eng.pos[v][t].size # 0
                                          /\ AuxNext(aux, S, e, T).chk[v][t] # T.eng.pos[v][t].lupf THEN {"gchk"} ELSE {})
